@@ -262,7 +262,13 @@ func c06Matched(m benchproc.Match, n int) (hx.Sx, int) {
 func c06Filter(o *hx.Out, r *hx.Rng, n int, depth int) error {
 	res, in := c06Result(r, n)
 	q := c06Expr(r, depth, c06Candidates(res))
-	in.Kind, in.Filter = "filter", q
+	return c06FilterOn(o, res, in, q, "filter")
+}
+
+// c06FilterOn: NewFilter(q), Match / All / Any / Test / Apply on res, as a kind-1 case.
+func c06FilterOn(o *hx.Out, res *benchfmt.Result, in c06Input, q string, fam string) error {
+	n := len(res.Values)
+	in.Kind, in.Filter = fam, q
 	flt, err := benchproc.NewFilter(q)
 	if err != nil {
 		return fmt.Errorf("generated filter %q rejected: %v", q, err)
@@ -300,8 +306,10 @@ func c06Filter(o *hx.Out, r *hx.Rng, n int, depth int) error {
 	} else if nm == n {
 		kind = "all"
 	}
-	o.Count(fmt.Sprintf("filter n=%d matched=%s", n, kind))
-	o.Count(fmt.Sprintf("filter ops AND/OR/NOT/unit=%d/%d/%d/%d", min(strings.Count(q, " AND ")+strings.Count(q, "  "), 3), min(strings.Count(q, " OR "), 3), min(strings.Count(q, "-"), 3), min(strings.Count(q, ".unit"), 3)))
+	o.Count(fmt.Sprintf("%s n=%d matched=%s", fam, n, kind))
+	if fam == "filter" {
+		o.Count(fmt.Sprintf("filter ops AND/OR/NOT/unit=%d/%d/%d/%d", min(strings.Count(q, " AND ")+strings.Count(q, "  "), 3), min(strings.Count(q, " OR "), 3), min(strings.Count(q, "-"), 3), min(strings.Count(q, ".unit"), 3)))
+	}
 	o.Add(c, in, q+"\x00"+in.Name+fmt.Sprint(n, in.Units), nm != 0 && nm != n)
 	return nil
 }
@@ -351,6 +359,12 @@ func c06Seq(o *hx.Out, r *hx.Rng, nA, nB int) error {
 	if !strings.Contains(q, ".unit") {
 		q = r.Pick([]string{"", "-"}) + ".unit:" + strconv.Quote(cands[len(cands)-1-r.Intn(3)]) + r.Pick([]string{" ", " OR ", " AND "}) + "(" + q + ")"
 	}
+	return c06SeqOn(o, r, A, inA, B, inB, q, "")
+}
+
+// c06SeqOn: the sequence protocol of c06Seq on two given results and one filter text.
+func c06SeqOn(o *hx.Out, r *hx.Rng, A *benchfmt.Result, inA c06Input, B *benchfmt.Result, inB c06Input, q string, fam string) error {
+	nA, nB := len(A.Values), len(B.Values)
 	flt, err := benchproc.NewFilter(q)
 	if err != nil {
 		return fmt.Errorf("generated filter %q rejected: %v", q, err)
@@ -384,9 +398,9 @@ func c06Seq(o *hx.Out, r *hx.Rng, nA, nB int) error {
 		haveB = true
 		flt.Match(c06Clone(A))
 	}
-	c06Consult(o, q, mA, A, beforeA, inA, how)
+	c06Consult(o, q, mA, A, beforeA, inA, fam+how)
 	if haveB {
-		c06Consult(o, q, mB, B, beforeB, inB, how+"/second")
+		c06Consult(o, q, mB, B, beforeB, inB, fam+how+"/second")
 	}
 	return nil
 }
@@ -403,27 +417,36 @@ func c06Fixed(o *hx.Out, r *hx.Rng, n int) error {
 	if r.Chance(0.6) {
 		q = c06Expr(r, 1, c06Candidates(res))
 	}
-	flt, err := benchproc.NewFilter(q)
-	if err != nil {
-		return fmt.Errorf("generated filter %q rejected: %v", q, err)
-	}
 	np := r.Range(1, 3)
 	var projs []string
-	var pp benchproc.ProjectionParser
-	var ps []*benchproc.Projection
 	for i := 0; i < np; i++ {
 		pe := c06Projs[r.Intn(len(c06Projs))]
 		if r.Chance(0.3) {
 			pe += "," + c06Projs[r.Intn(len(c06Projs))]
 		}
+		projs = append(projs, pe)
+	}
+	return c06FixedOn(o, res, in, q, projs, "fixed")
+}
+
+// c06FixedOn: one parser, Parse(projs[0], flt), Parse(projs[1], flt), ...; then
+// flt.Match(res), and the projected values of the fields that have a fixed list.
+func c06FixedOn(o *hx.Out, res *benchfmt.Result, in c06Input, q string, projs []string, fam string) error {
+	n := len(res.Values)
+	flt, err := benchproc.NewFilter(q)
+	if err != nil {
+		return fmt.Errorf("generated filter %q rejected: %v", q, err)
+	}
+	var pp benchproc.ProjectionParser
+	var ps []*benchproc.Projection
+	for _, pe := range projs {
 		p, err := pp.Parse(pe, flt)
 		if err != nil {
 			return fmt.Errorf("generated projection %q rejected: %v", pe, err)
 		}
-		projs = append(projs, pe)
 		ps = append(ps, p)
 	}
-	in.Kind, in.Filter, in.Projs = "fixed", q, projs
+	in.Kind, in.Filter, in.Projs = fam, q, projs
 	m, err := flt.Match(res)
 	if err != nil {
 		return err
@@ -447,13 +470,284 @@ func c06Fixed(o *hx.Out, r *hx.Rng, n int) error {
 	name, cfgs, units := c06ResSx(res)
 	c := hx.L(hx.I(2), hx.S(q), hx.SList(projs), c07Oracle(q), name, cfgs, units, c06ReTable(q, res),
 		matched, hx.Bool(m.All()), hx.Bool(m.Any()), hx.List(pvals))
-	o.Count(fmt.Sprintf("fixed n=%d kept=%v", n, nm > 0))
+	o.Count(fmt.Sprintf("%s n=%d kept=%v", fam, n, nm > 0))
 	o.Add(c, in, "F"+q+"\x00"+strings.Join(projs, "\x00")+in.Name, true)
 	return nil
 }
 
+// ---- (C06-a) a fixed list on .fullname with .name / sub-name keys projected
+// before, next to, or AFTER it: every order of the fields, every way of
+// cutting that order into Parse calls on one parser ----
+
+var c06OrdNames = []string{"Copy/size=1", "Copy/size=1-8", "Move/size=2/gomaxprocs=4", "Copy", "Copy-8", "Other/size=1",
+	"Move/gomaxprocs=8/size=1", "Copy/size=1/x=2", "Move/size=2", "Copy/x=2-4"}
+var c06OrdLists = []string{"(Copy Move)", "(Copy Move)", "(Copy/size=1 Move/size=2)", `("*" "*/size=1")`, "(Copy-8 Copy)", `("*")`,
+	"(Copy/x=2 Move)", "(Copy/gomaxprocs=8 Copy/size=1-8 X)", `("*/x=2" "*-8" "*/size=1")`, "(Move/gomaxprocs=4 Copy/size=1)"}
+
+func c06Perms(n int) [][]int {
+	var out [][]int
+	var rec func(cur []int, used []bool)
+	rec = func(cur []int, used []bool) {
+		if len(cur) == n {
+			out = append(out, append([]int(nil), cur...))
+			return
+		}
+		for i := 0; i < n; i++ {
+			if !used[i] {
+				used[i] = true
+				rec(append(cur, i), used)
+				used[i] = false
+			}
+		}
+	}
+	rec(nil, make([]bool, n))
+	return out
+}
+
+// c06Deleted: name with the parts of the keys in set deleted, by plain string
+// surgery (used only to CHOOSE value lists that tell the projected name from
+// the written one; nothing is judged with it).
+func c06Deleted(name string, set []string) string {
+	has := func(k string) bool {
+		for _, x := range set {
+			if x == k {
+				return true
+			}
+		}
+		return false
+	}
+	segs := strings.Split(name, "/")
+	gm := ""
+	last := segs[len(segs)-1]
+	if i := strings.LastIndex(last, "-"); i >= 0 && i+1 < len(last) && strings.Trim(last[i+1:], "0123456789") == "" {
+		gm, segs[len(segs)-1] = last[i:], last[:i]
+	}
+	out := segs[0]
+	if has(".name") {
+		out = "*"
+	}
+	for _, sg := range segs[1:] {
+		if i := strings.IndexByte(sg, '='); i >= 0 && has("/"+sg[:i]) {
+			continue
+		}
+		out += "/" + sg
+	}
+	if gm != "" && !has("/gomaxprocs") {
+		out += gm
+	}
+	return out
+}
+
+func c06Order(o *hx.Out, r *hx.Rng, reps int) error {
+	others := []string{"/size", ".name", "/gomaxprocs"}
+	for sub := 1; sub < 8; sub++ {
+		var set []string
+		for b, k := range others {
+			if sub&(1<<b) != 0 {
+				set = append(set, k)
+			}
+		}
+		for _, perm := range c06Perms(len(set) + 1) {
+			for rep := 0; rep < reps; rep++ {
+				// field texts in this order; index 0 is the fixed-list .fullname
+				var fields []string
+				first := perm[0] == 0
+				name := c06OrdNames[r.Intn(len(c06OrdNames))]
+				list := c06OrdLists[r.Intn(len(c06OrdLists))]
+				want := c06Deleted(name, set)
+				listKind := "pool"
+				switch x := r.Intn(20); {
+				case x < 11 && want != name: // the name as projected is listed, the name as written is not
+					list, listKind = "("+strconv.Quote(want)+" Zzz)", "projected-only"
+				case x < 15 && want != name: // the name as written is listed, the name as projected is not
+					list, listKind = "(Zzz "+strconv.Quote(name)+")", "written-only"
+				}
+				o.Count("order list=" + listKind)
+				for _, x := range perm {
+					if x == 0 {
+						fields = append(fields, ".fullname@"+list)
+						continue
+					}
+					f := set[x-1]
+					if r.Chance(0.2) {
+						f += map[string]string{"/size": "@(1 2)", ".name": "@(Copy Move)", "/gomaxprocs": `@(8 "")`}[f]
+					}
+					fields = append(fields, f)
+				}
+				// cut into Parse calls
+				var projs []string
+				cur := fields[0]
+				for _, f := range fields[1:] {
+					if r.Chance(0.5) {
+						projs = append(projs, cur)
+						cur = f
+					} else {
+						cur += r.Pick([]string{",", ",", " ", ", "}) + f
+					}
+				}
+				projs = append(projs, cur)
+				res := &benchfmt.Result{Name: benchfmt.Name(name), Iters: 7}
+				in := c06Input{Name: name}
+				if r.Chance(0.5) {
+					res.SetConfig("goos", "linux")
+					in.Config = append(in.Config, [3]string{"goos", "linux", "file"})
+				}
+				for i, nv := 0, r.Range(1, 3); i < nv; i++ {
+					u := c06Units[r.Intn(4)]
+					res.Values = append(res.Values, benchfmt.Value{Value: float64(i), Unit: u[0], OrigValue: float64(i), OrigUnit: u[1]})
+					in.Units = append(in.Units, u)
+				}
+				q := "*"
+				if r.Chance(0.3) {
+					q = c06Expr(r, 1, c06Candidates(res))
+				}
+				o.Count(fmt.Sprintf("order fullname-list-first=%v calls=%d", first, len(projs)))
+				if err := c06FixedOn(o, res, in, q, projs, "fixed-order"); err != nil {
+					return err
+				}
+			}
+		}
+	}
+	return nil
+}
+
+// ---- (C06-b) '*' as a direct operand of OR / AND next to other operands ----
+
+func c06StarExpr(r *hx.Rng, cands []string) string {
+	t := func() string {
+		switch r.Intn(4) {
+		case 0: // .unit term on a unit that occurs
+			u := cands[len(cands)-1-r.Intn(min(4, len(cands)))]
+			return r.Pick([]string{"", "", "-"}) + ".unit:" + strconv.Quote(u)
+		case 1: // whole-result term, true or false
+			return r.Pick([]string{"", "", "-"}) + r.Pick([]string{".fullname", ".name", "goos", "pkg"}) + ":" + strconv.Quote(cands[r.Intn(min(3, len(cands)))])
+		case 2:
+			return r.Pick([]string{"goos:plan9", "goos:linux", ".unit:B/op", "-.unit:B/op", ".unit:/op$/", "missing:x", `missing:""`})
+		}
+		return c06Term(r, 1, cands)
+	}
+	a, b, c := t(), t(), t()
+	switch r.Intn(16) {
+	case 0:
+		return a + " OR *"
+	case 1:
+		return "* OR " + a
+	case 2:
+		return a + " OR * OR " + b
+	case 3:
+		return "-(" + a + " OR *)"
+	case 4:
+		return a + " AND (" + b + " OR * OR " + c + ")"
+	case 5:
+		return "* AND " + a
+	case 6:
+		return a + " AND *"
+	case 7:
+		return a + " * " + b
+	case 8:
+		return "-(* " + a + ")"
+	case 9:
+		return "(" + a + " OR *) " + b
+	case 10:
+		return "-* OR " + a
+	case 11:
+		return a + " OR (* " + b + ")"
+	case 12:
+		return "(" + a + " *) OR " + b
+	case 13:
+		return "-(-* OR " + a + ")"
+	case 14:
+		return "-(" + a + " OR (" + b + " *))"
+	}
+	return a + " (" + b + " OR -*) " + c
+}
+
+func c06Star(o *hx.Out, r *hx.Rng, n int) error {
+	res, in := c06Result(r, n)
+	q := c06StarExpr(r, c06Candidates(res))
+	if r.Chance(0.15) {
+		q = r.Pick([]string{"goos:plan9 OR *", "-(.unit:B/op OR *)", "k:v AND (x:y OR * OR z:w)", "* OR .unit:B/op", ".unit:B/op OR * OR goos:linux", "-(goos:linux OR *)", "* *", "* OR *", "-(* OR *)", ".unit:sec/op AND *", "-(.unit:sec/op *)"})
+	}
+	return c06FilterOn(o, res, in, q, "star")
+}
+
+// ---- (C06-b) measurements that share a base unit but were written differently,
+// judged by .unit terms that tell the spellings apart; in ONE result and across
+// results by one Filter ----
+
+var c06Spell = [][2]string{{"sec/op", "ns/op"}, {"sec/op", ""}, {"sec/op", "sec/op"}, {"sec/op", "us/op"}, {"ns/op", ""}, {"B/op", ""}, {"B/op", "MB/op"}, {"ns/op", "ns/op"}}
+
+func c06SpellResult(r *hx.Rng, n int) (*benchfmt.Result, c06Input) {
+	name := r.Pick([]string{"Fib", "Fib/k=1-8", "X"})
+	res := &benchfmt.Result{Name: benchfmt.Name(name), Iters: 7}
+	in := c06Input{Name: name}
+	if r.Chance(0.5) {
+		res.SetConfig("goos", "linux")
+		in.Config = append(in.Config, [3]string{"goos", "linux", "file"})
+	}
+	// mostly the sec/op family, so that the same base unit meets itself
+	k := r.Range(2, 5)
+	for i := 0; i < n; i++ {
+		u := c06Spell[r.Intn(k)]
+		if r.Chance(0.1) {
+			u = c06Spell[r.Intn(len(c06Spell))]
+		}
+		res.Values = append(res.Values, benchfmt.Value{Value: float64(i), Unit: u[0], OrigValue: float64(i), OrigUnit: u[1]})
+		in.Units = append(in.Units, u)
+	}
+	return res, in
+}
+
+func c06SpellExpr(r *hx.Rng) string {
+	t := func() string {
+		neg := r.Pick([]string{"", "", "-"})
+		switch r.Intn(6) {
+		case 0:
+			return neg + ".unit:" + r.Pick([]string{"ns/op", "sec/op", "us/op", "B/op", "MB/op", `""`})
+		case 1:
+			return neg + ".unit:" + strconv.Quote(r.Pick([]string{"ns/op", "sec/op", "us/op"}))
+		case 2:
+			return neg + ".unit:" + r.Pick([]string{"/^ns/", "/^sec/", "/s[/]op$/", "/^[nu]s/", "/^$/", "/B/"})
+		case 3:
+			return neg + ".unit:(" + r.Pick([]string{"ns/op", "us/op", "/^ns/"}) + " OR " + r.Pick([]string{"us/op", "B/op", `"sec/op"`}) + ")"
+		case 4:
+			return r.Pick([]string{"*", "-*", "goos:linux", "-goos:linux", ".name:Fib"})
+		}
+		return neg + "(" + ".unit:" + r.Pick([]string{"ns/op", "sec/op"}) + r.Pick([]string{" ", " OR ", " AND "}) + "-.unit:" + r.Pick([]string{"us/op", "ns/op", "sec/op"}) + ")"
+	}
+	n := r.Range(1, 3)
+	s := t()
+	for i := 1; i < n; i++ {
+		s += r.Pick([]string{" ", " OR ", " AND ", " OR "}) + t()
+	}
+	return s
+}
+
+func c06SpellOne(o *hx.Out, r *hx.Rng, n int) error {
+	res, in := c06SpellResult(r, n)
+	q := c06SpellExpr(r)
+	spell := map[[2]string]bool{}
+	for _, u := range in.Units {
+		if u[0] == "sec/op" {
+			spell[u] = true
+		}
+	}
+	o.Count(fmt.Sprintf("spell-one spellings-of-sec/op-in-result=%d", len(spell)))
+	return c06FilterOn(o, res, in, q, "spell-one")
+}
+
+func c06SpellSeq(o *hx.Out, r *hx.Rng, nA, nB int) error {
+	A, inA := c06SpellResult(r, nA)
+	B, inB := c06SpellResult(r, nB)
+	q := c06SpellExpr(r)
+	if !strings.Contains(q, ".unit") {
+		q = ".unit:ns/op OR " + q
+	}
+	return c06SeqOn(o, r, A, inA, B, inB, q, "spell/")
+}
+
 func genC06(o *hx.Out, r *hx.Rng, tier string, replay string) error {
-	o.Rule = "sequences on ONE Filter: Match(A), then Match/Apply of another result B (other units, other n), then A's (and B's) Match consulted (Test all i, All, Any, Match.Apply) and judged on that result alone; " + "filter expressions generated from the grammar (terms key:value / key:(v OR v) / -term / (expr) / *, AND by juxtaposition or keyword, OR; keys .name .fullname /k /gomaxprocs file keys quoted keys .unit; values literal, quoted, regexp) up to depth 5, evaluated on results with n in {1,2,31,32,33,63,64,65,130} measurements with base and written units; fixed-list projections (1-3 Parse calls on one parser, incl. .fullname next to /k) wrapping such filters. non-trivial = some but not all measurements match (filters)"
+	o.Rule = "sequences on ONE Filter: Match(A), then Match/Apply of another result B (other units, other n), then A's (and B's) Match consulted (Test all i, All, Any, Match.Apply) and judged on that result alone; " + "filter expressions generated from the grammar (terms key:value / key:(v OR v) / -term / (expr) / *, AND by juxtaposition or keyword, OR; keys .name .fullname /k /gomaxprocs file keys quoted keys .unit; values literal, quoted, regexp) up to depth 5, evaluated on results with n in {1,2,31,32,33,63,64,65,130} measurements with base and written units; fixed-list projections (1-3 Parse calls on one parser, incl. .fullname next to /k) wrapping such filters; fixed-order: a fixed list on .fullname together with every non-empty subset of {/size, .name, /gomaxprocs} in EVERY field order (the list first, in the middle, last), cut at random into 1-4 Parse calls on one parser, on names carrying those keys and the -N suffix; star: * as a direct operand of OR and of AND next to .unit and whole-result operands, negated and nested (16 templates + fixed texts); spell-one / spell: results whose measurements share the base unit sec/op but were written ns/op, us/op, sec/op or not rescaled, judged by .unit terms (bare, quoted, regexp, value list, negated) that tell the spellings apart, in one result and by one Filter across two results. non-trivial = some but not all measurements match (filters)"
 	ns := []int{1, 2, 31, 32, 33, 63, 64, 65, 130}
 	per := 110
 	perFixed := 60
@@ -486,6 +780,32 @@ func genC06(o *hx.Out, r *hx.Rng, tier string, replay string) error {
 	for _, n := range []int{1, 2, 33} {
 		for i := 0; i < perFixed; i++ {
 			if err := c06Fixed(o, r, n); err != nil {
+				return err
+			}
+		}
+	}
+	// gap classes: separate generator, so that the streams above keep their cases
+	g := r.Split()
+	reps, perStar, perSpell := 3, 45, 40
+	if tier == "thorough" {
+		reps, perStar, perSpell = 30, 600, 500
+	}
+	if err := c06Order(o, g, reps); err != nil {
+		return err
+	}
+	for _, n := range ns {
+		for i := 0; i < perStar; i++ {
+			if err := c06Star(o, g, n); err != nil {
+				return err
+			}
+		}
+		for i := 0; i < perSpell; i++ {
+			if err := c06SpellOne(o, g, n); err != nil {
+				return err
+			}
+		}
+		for i := 0; i < perSpell/2; i++ {
+			if err := c06SpellSeq(o, g, n, ns[g.Intn(len(ns))]); err != nil {
 				return err
 			}
 		}
